@@ -268,6 +268,21 @@ def check(case):
             case.close(float(out[0]), want, rtol=1e-9, what='score of compute_sensitivities')
         _sens(case, f, sim, float(out[0]), want_g, 'reference', rtol_g=1e-7)
 
+    # the measurement arrays handed to the constructors and the simulated measurements are the caller's: they keep
+    # their values (the same data are used to build other filters)
+    with case.clause('inputs_unchanged'):
+        for k, (given, pristine) in enumerate(rf.inputs_of(f)):
+            case.true(np.array_equal(given, pristine, equal_nan=True),
+                      'the observation array handed to the constructor of part %d (%s) was modified: %r -> %r' % (
+                          k, parts[k]['kind'], pristine.ravel()[:4].tolist(), given.ravel()[:4].tolist()),
+                      kind='input_modified')
+        a = sim.copy()
+        f.compute_log_likelihood(a)
+        f.compute_sensitivities(a)
+        case.true(np.array_equal(a, sim, equal_nan=True), 'the simulated measurements passed in were modified',
+                  kind='input_modified')
+    rf.GIVEN.clear()
+
     if v0 is None and g0 is None:
         return
 
